@@ -419,6 +419,7 @@ def multi_cases(draw: Any) -> dict:
 
     return {"dim": dim, "decay": draw(st.integers(1, 12)) / 4.0,
             "gain": draw(st.integers(0, 8)) / 4.0,
+            "cdim": draw(st.sampled_from([1, 1, 2])),
             "test": states(draw(st.integers(0, 3))),
             "train": states(draw(st.integers(0, 3))),
             "test_steps": draw(st.integers(5, 40)),
@@ -442,21 +443,28 @@ def check_multi(ctx: Ctx, case: dict) -> None:
     )
     decay, gain, dim = case["decay"], case["gain"], case["dim"]
 
+    cdim = case.get("cdim", 1)
+
     def eq(s: Any, _t: float, c: Any, out: Any) -> None:
+        require(len(c) == cdim, lambda: f"equations handed {len(c)} control "
+                f"values, the controller has {cdim} outputs")
         for i in range(dim):
-            out[i] = -decay * s[i] + c[0]
+            out[i] = -decay * s[i] + c[i % cdim]
 
     def ctrl(s: Any, _t: float, p: Any, out: Any) -> None:
-        out[0] = -p[0] * s[0]
+        require(len(out) == cdim, lambda: f"controller with {cdim} outputs "
+                f"handed an output array of length {len(out)}")
+        for k in range(cdim):
+            out[k] = -p[k] * s[k]
 
-    params = np.array([gain])
+    params = np.array([gain / (k + 1) for k in range(cdim)])
     got: list[list[tuple]] = [[] for _ in range(case["collectors"])]
     cols = [(lambda i, ode, j, t, _g=g: _g.append((i, ode, j, t)))
             for g in got]
     tests = [np.array(v, dtype=float) for v in case["test"]]
     trains = [np.array(v, dtype=float) for v in case["train"]]
     sut("multi_run_ode", multi_run_ode, tests, trains,
-        cols if len(cols) > 1 else cols[0], eq, ctrl, params, 1,
+        cols if len(cols) > 1 else cols[0], eq, ctrl, params, cdim,
         case["test_steps"], case["test_time"], case["train_steps"],
         case["train_time"], case["use_dims"], case["gamma"])
     want = [(sp, case["test_steps"], case["test_time"]) for sp in tests] + \
@@ -471,7 +479,10 @@ def check_multi(ctx: Ctx, case: dict) -> None:
                     f"requested {steps} rows, got {ode.shape[0]}")
             require(float(ode[-1, -1]) <= tmax, lambda: f"{kind} case {k}: "
                     f"time {ode[-1, -1]} beyond the limit {tmax}")
-            ref = run_ode(sp, eq, ctrl, params, 1, steps, tmax)
+            require(ode.shape[1] == dim + cdim + 1, lambda: f"{kind} case "
+                    f"{k}: result has {ode.shape[1]} columns, expected "
+                    f"{dim} state + {cdim} control + 1 time")
+            ref = run_ode(sp, eq, ctrl, params, cdim, steps, tmax)
             require(np.array_equal(ode, ref), f"{kind} case {k} differs from "
                     "the single run_ode call with the same arguments")
             require(j == j_from_ode(ode, dim, case["use_dims"],
@@ -482,6 +493,7 @@ def check_multi(ctx: Ctx, case: dict) -> None:
         bool(tests) and bool(trains)
         and case["test_steps"] != case["train_steps"]),
         labels=["multi", f"multi_collectors={case['collectors']}",
+                f"multi_control_dims={cdim}",
                 "multi_steps_differ" if case["test_steps"]
                 != case["train_steps"] else "multi_steps_equal"])
 
